@@ -112,6 +112,16 @@ func recUnbounded(form string) string {
 
 func execRec(vm *otto.Otto, c *Case) Obs {
 	vm.SetStackDepthLimit(c.L)
+	// the same recursion on a Copy() (of a copy) made after the limit was configured
+	for i := 0; i < c.Copies; i++ {
+		var cp *otto.Otto
+		if o := guard(func() error { cp = vm.Copy(); return nil }); o.Kind != "value" {
+			o.Msg = "Copy(): " + o.Msg
+			return o
+		}
+		cp.Interrupt = vm.Interrupt // the watchdog interrupts through the channel of the original
+		vm = cp
+	}
 	prog := recProgram(c.Form, c.D)
 	var obs Obs
 	switch c.Mode {
